@@ -182,6 +182,18 @@ CHECKS.update({
             "DESIGN.md 4/C12"),
 })
 
+CHECKS.update({
+    "C11": ("exploration",
+            "deviation-bounded exhaustive enumeration of budget configurations (all budgets within <=B single-setting deviations of a default), each run through the real CLI in fresh forked processes and compared with a pipeline assembled from library components and abstract statement rows",
+            "The default budget and every budget at <=2 (quick, ~800 budgets) / <=3 (thorough) deviations over 35 single-setting deviations (per-source layout, delimiter, header, "
+            "decimal separator, sign mode, name, missing / directory / invalid-UTF-8 file; rules as .rules / legacy CSV / none / dangling; rule mode; views none / broken; currency "
+            "format; 1-3 sources incl. a twin with an identical format string and different overrides; supplemental source; source order) runs `tally up --format json -v`, "
+            "`--format summary` and the HTML report. Merchants (category, subcategory, tags, totals, counts, raw descriptions), summary figures, view membership and HTML data must "
+            "equal what normalize_merchant / analyze_transactions / classify_by_sections produce from the abstract rows; unreadable sources must be named.",
+            "library components are trusted here (judged by C01/C05/C06/C10); message wording and merchant order are not judged",
+            "DESIGN.md 4/C11"),
+})
+
 NOT_YET = {}
 
 PROPS = [json.loads(l)["id"] for l in open(os.path.join(ROOT, "properties.jsonl"))]
